@@ -1,0 +1,8 @@
+//go:build verif
+
+package linktracker
+
+// VerifSizes exposes the sizes of the three internal maps (verification hook, build tag verif).
+func (lt *LinkTracker) VerifSizes() (missing int, traversed int, refcounts int) {
+	return len(lt.missingBlocks), len(lt.linksWithBlocksTraversedByRequest), len(lt.traversalsWithBlocksInProgress)
+}
